@@ -226,6 +226,14 @@ class C03(Prop):
         yield {"kind": "readers", "use_analog": False, "delimiter": ",", "decimal": ".", "bom": False, "eol": "\r\n",
                "explicit_delimiter": False,
                "acq": {"samples": ["1"], "nscans": 10001, "elements": ["31P"], "channels": ["Counter"], "tokens": toks}}
+        if tier == "thorough":
+            # more than 65536 MainRuns lines (10 elements x 5 channels x 1400 scans) / more than 65536 scans
+            for n, m, k, chans, kind in ((1, 1400, 10, ["X [u]", "Y", "Time", "Analog", "Counter"], "load"), (1, 66000, 1, ["Counter"], "readers")):
+                toks = [[[[f"{0.25 * s + 0.01 * e:.2f}" if ch == "Time" else f"{(i * 7 + s * 3 + e + c) % 1000}.5" for c, ch in enumerate(chans)]
+                          for e in range(k)] for s in range(m)] for i in range(n)]
+                yield {"kind": kind, "use_analog": False, "delimiter": ",", "decimal": ".", "bom": False, "eol": "\r\n", "explicit_delimiter": False,
+                       "acq": {"samples": [f"S{i}" for i in range(n)], "nscans": m, "elements": [f"{10 + e}X" for e in range(k)], "channels": chans,
+                               "tokens": toks}}
         # no decimal mark in the first 16/17/33/65 lines (zero counts written as `0`), fractional values only later:
         # the Counter-only export of a low-abundance first isotope, each layout in turn, every delimiter/decimal pair
         for combo in ((";", ","), (";", "."), (",", ".")):
